@@ -100,10 +100,15 @@ def finder_cases(draw):
             )
         )
     )
-    m = draw(st.sampled_from(["greedy-compressed", "greedy-span", "kahypar-agglom", "hyper"]))
+    m = draw(st.sampled_from([
+        "greedy-compressed", "greedy-span", "kahypar-agglom", "hyper",
+        "preset:greedy-compressed", "preset:greedy-span",
+    ]))
     spec = {"kind": "finder", "net": net, "method": m, "seed": draw(st.integers(0, 99))}
-    if m != "hyper":
+    if m != "hyper" and not m.startswith("preset:"):
         spec["params"] = draw(space_strategy(m))
+    if m.startswith("preset:"):
+        spec["entry"] = draw(st.sampled_from(["tree", "path"]))
     return spec
 
 
@@ -112,7 +117,7 @@ def strategy(tier, sub=None):
 
 
 def budget(tier, sub=None):
-    return {"examples": 4800 if tier == "quick" else 150000, "shards": 16}
+    return {"examples": 9600 if tier == "quick" else 200000, "shards": 16}
 
 
 def run_stats(spec):
@@ -219,6 +224,13 @@ def run_finder(spec):
                     on_trial_error="raise", seed=spec["seed"],
                 )
                 return opt.search(inputs, output, sizes)
+            if m.startswith("preset:"):
+                # the string presets of the high-level interface
+                name = m.split(":")[1]
+                if spec.get("entry") == "path":
+                    path = ctg.array_contract_path(inputs, output, sizes, optimize=name, canonicalize=False, cache=False)
+                    return ctg.ContractionTreeCompressed.from_path(inputs, output, sizes, path=path, autocomplete=False)
+                return ctg.array_contract_tree(inputs, output, sizes, optimize=name, canonicalize=False)
             params = dict(spec["params"])
             tree = H._PATH_FNS[m](inputs, output, sizes, **params, **H.get_hyper_constants()[m])
             return tree
